@@ -127,7 +127,7 @@ def post_failures(case, k, prev, ob):
     if kind == 'register':
         h = ob['hint']
         want = (op['prog']['tag'], sorted(h['chan_order']),
-                {m[0]: [[F(x) for x in m[1]], [F(x) for x in m[2]]] for m in h['meas']}, op['prog']['tag'])
+                {m[0]: [[F(x) for x in m[1]], [F(x) for x in m[2]]] for m in h['meas']}, op.get('cbtag', op['prog']['tag']))
         if nv.get(name) != want:
             out.append(('post_register', None, name, 'registered_programs[p%d] is not the program just registered' % name))
         pv.pop(name, None)
